@@ -354,7 +354,10 @@ func (x *Engine) loopHeader(fr *Frame, li *loopInfo, st *State) {
 				continue // an invariant tagged {P,...} is stated (checked and assumed) only under those properties
 			}
 			ev := &Eval{x: x, st: st, old: fr.entry, env: env, hash: hash, pkg: fr.fn.Pkg}
-			g := x.safeEvalBool(ev, c)
+			g, okInv := x.invBool(ev, c, li.ord)
+			if !okInv {
+				continue
+			}
 			lab := c.Label
 			if lab == "" {
 				lab = fmt.Sprint(i + 1)
@@ -425,7 +428,9 @@ func (x *Engine) loopHeader(fr *Frame, li *loopInfo, st *State) {
 				continue
 			}
 			ev := &Eval{x: x, st: st, old: fr.entry, env: env, hash: hash, pkg: fr.fn.Pkg}
-			x.assume(st, x.safeEvalBool(ev, c))
+			if g, okInv := x.invBool(ev, c, li.ord); okInv {
+				x.assume(st, g)
+			}
 		}
 	} else if fr.top {
 		x.notes = append(x.notes, fmt.Sprintf("loop %d of %s has no invariant (true)", li.ord, fr.fn))
@@ -489,13 +494,45 @@ func (x *Engine) backEdge(fr *Frame, from, h *ssa.BasicBlock, st *State) {
 			continue
 		}
 		ev := &Eval{x: x, st: st, old: fr.entry, env: env, hash: hash, pkg: fr.fn.Pkg}
-		g := x.safeEvalBool(ev, c)
+		g, okInv := x.invBool(ev, c, li.ord)
+		if !okInv {
+			continue
+		}
 		lab := c.Label
 		if lab == "" {
 			lab = fmt.Sprint(i + 1)
 		}
 		x.oblige(st, fmt.Sprintf("loop%d.preserve", li.ord), lab, g, c.Text, pos)
 	}
+}
+
+// invBool evaluates a loop invariant. An invariant that names a local variable the current code no longer has (the
+// function was edited: a rename, a restructured loop) cannot be stated: it is skipped, the function is marked degraded
+// (whatever then fails to prove is reported as undecided, not as a violation), and the reason is kept in the evidence.
+func (x *Engine) invBool(ev *Eval, c *Clause, ord int) (res string, ok bool) {
+	defer func() {
+		if r := recover(); r != nil {
+			if ee, isEE := r.(evalErr); isEE && strings.Contains(ee.msg, "unknown name") {
+				x.degrade(fmt.Sprintf("invariant [%s] of loop %d in %s is skipped: %s (the contract names a local variable the current code does not have)", c.Label, ord, x.curFn, ee.msg))
+				res, ok = "true", false
+				return
+			}
+			panic(r)
+		}
+	}()
+	return x.safeEvalBool2(ev, c), true
+}
+
+func (x *Engine) safeEvalBool2(ev *Eval, c *Clause) (res string) {
+	defer func() {
+		if r := recover(); r != nil {
+			if ee, ok := r.(evalErr); ok && !strings.Contains(ee.msg, "unknown name") {
+				panic(fmt.Sprintf("%s:%d: contract error: %s\n    in: %s", c.File, c.Line, ee.msg, c.Text))
+			}
+			panic(r)
+		}
+	}()
+	return ev.evalBool(c.Expr)
 }
 
 func (x *Engine) safeEvalBool(ev *Eval, c *Clause) (res string) {
@@ -963,7 +1000,19 @@ func (x *Engine) tagOK(props []string) bool {
 		return true
 	}
 	for _, p := range props {
-		if p == x.curProp || (p == "seq" && !x.conc) || (p == "conc" && x.conc) {
+		interf := x.conc || x.guardInterferenceActive()
+		if p == x.curProp || (p == "seq" && !interf) || (p == "conc" && interf) {
+			return true
+		}
+	}
+	return false
+}
+
+// guardInterferenceActive: the current property is one under which `guarded` declarations make other threads'
+// writes visible at lock acquisitions (see guardInterference).
+func (x *Engine) guardInterferenceActive() bool {
+	for _, gd := range x.guards {
+		if hasProp(gd.props, x.curProp) {
 			return true
 		}
 	}
